@@ -147,6 +147,7 @@ pub fn run_ops(dict: &Arc<JapaneseDictionary>, ops: &[TokOp], n_lists: usize, yi
                 tok.set_subset(InfoSubset::from_bits_truncate(*bits));
                 Obs::Unit
             }
+            TokOp::SetDebug { .. } => Obs::Unit,
             TokOp::Arm { fault, .. } => {
                 pending = Some(fault.clone());
                 Obs::Unit
